@@ -2,7 +2,7 @@ import TinsModel.Ack.Model
 import TinsModel.Ack.Spec
 import Driver.Util
 /- line-protocol driver for AckTracker (property C19): model mode and spec (oracle) mode.
-   ops: init <ack> <0|1> | new | usesack | pkt <ack> [-|edges..] | pktw <ack> [-|edges..] | pktn | opt <ack> <hex>
+   ops: init <ack> <0|1> | finit <ack> | new | usesack | pkt <ack> [-|edges..] | pktw <ack> [-|edges..] | pktn | opt <ack> <hex>
         | q <seq> <len>            (numbers are absolute positions; the model reduces them mod 2^32) -/
 namespace Driver.C19
 open Tins Tins.Ack Driver
@@ -48,6 +48,10 @@ def step (t : Tracker) (line : String) : Tracker × String :=
   match words line with
   | "init" :: a :: s :: _ => match a.toNat? with
     | some k => let t' := Tracker.init (wrap32 k) (s == "1"); (t', s!"init {showState t'}")
+    | none => (t, "bad-op")
+  | "finit" :: a :: _ => match a.toNat? with
+    -- Flow::update_state builds `AckTracker(ack_seq)` (use_sack defaults to true); the same packet is then processed
+    | some k => let t' := (processPacket (Tracker.init (wrap32 k) true) (wrap32 k) .absent).1; (t', s!"finit {showState t'}")
     | none => (t, "bad-op")
   | "new" :: _ => (Tracker.default, s!"new {showState Tracker.default}")
   | "usesack" :: _ => let t' := { t with useSack := true }; (t', s!"usesack {showState t'}")
@@ -127,6 +131,10 @@ def specStep (st : OState) (line : String) : OState × String :=
     match words op with
     | ["init", a, s] => match a.toNat? with
       | some k => let st' : OState := { A := k, seen := [], sackOn := s == "1", specified := true }
+                  (st', judgeState st' ow false)
+      | none => (unspec, "unspecified")
+    | ["finit", a] => match a.toNat? with
+      | some k => let st' : OState := { A := k, seen := [], sackOn := true, specified := true }
                   (st', judgeState st' ow false)
       | none => (unspec, "unspecified")
     | ["new"] => let st' : OState := { A := 0, seen := [], sackOn := false, specified := true }
